@@ -391,12 +391,19 @@ class CookieJar(AbstractCookieJar):
                     self._expire_cookie(max_age_expiration, domain, path, name)
                 except ValueError:
                     cookie["max-age"] = ""
+                    self._expirations.pop((domain, path, name), None)
 
             elif expires := cookie["expires"]:
                 if expire_time := self._parse_date(expires):
                     self._expire_cookie(expire_time, domain, path, name)
                 else:
                     cookie["expires"] = ""
+                    self._expirations.pop((domain, path, name), None)
+
+            else:
+                # A session cookie replacing an expiring one is not bound
+                # by the deadline of the cookie it replaced.
+                self._expirations.pop((domain, path, name), None)
 
             key = (domain, path)
             if self._cookies[key].get(name) != cookie:
